@@ -23,7 +23,7 @@ CONSTANTS Shard, NShards, EmitVectors,
 VARIABLES E, wl, phase
 vars == <<E, wl, phase>>
 
-EdgeIds == {"f_direct", "f_list", "f_map_nullable", "parent", "subtypes", "f_alias", "doc_type", "doc_field",
+EdgeIds == {"doc_on_alias", "f_direct", "f_list", "f_map_nullable", "parent", "subtypes", "f_alias", "doc_type", "doc_field",
             "doc_route_on_type", "cross_ns", "tag_default", "doc_route_on_route", "ns_doc", "route_err",
             \* not a dependency edge but a way of writing the route signatures: r3, r4 and q1 name their type inside
             \* Map(String, .), List(Map(String, .)) and List(.)? as RESULT instead of naming it as argument.  Edges does
@@ -45,6 +45,7 @@ Edges(e) ==
     (IF "subtypes" \in e THEN {<<"S5", "S6">>, <<"S6", "S5">>} \cup (IF "parent" \in e THEN {<<"S5", "S2">>} ELSE {}) ELSE {}) \cup
     (IF "f_alias" \in e THEN {<<"S3", "A1">>} ELSE {}) \cup
     {<<"A1", "S4">>} \cup
+    (IF "doc_on_alias" \in e THEN {<<"A1", "S8">>} ELSE {}) \cup       \* the doc of alias A1 mentions :type:`S8`
     (IF "doc_type" \in e THEN {<<"S4", "S6">>} ELSE {}) \cup
     (IF "doc_field" \in e THEN {<<"S3", "S7">>} ELSE {}) \cup
     (IF "doc_route_on_type" \in e THEN {<<"U1", "r3">>} ELSE {}) \cup
